@@ -64,6 +64,11 @@ var (
 
 //go:norace
 func hook(site uint32) {
+	if hookCalls++; hookCalls&(1<<22-1) == 0 {
+		// (a long run that keeps executing library statements is making progress: the wall-clock
+		// watchdog is for loops outside the instrumented statements)
+		simrt.Progress.Add(1)
+	}
 	if s := cur; s != nil {
 		s.Yield(site)
 	} else {
@@ -79,6 +84,8 @@ func blockedHook() {
 		simrt.Blocked()
 	}
 }
+
+var hookCalls uint64
 
 // check is the O2 oracle inside the concurrent phase: called by the scheduler
 // on the running task's goroutine at switches and operation boundaries.
@@ -222,7 +229,7 @@ func run(c *core.Ctx) {
 	default:
 		w = gen.New(t, k).Top()
 	}
-	xl := false
+	xl, busy := false, false
 	if !canary && c.RunIndex%ColdEvery != 0 && t.Bool(1, 48) {
 		// a busy list: code that treats long lists differently (chunked scans, helper goroutines,
 		// indexes built past a threshold) only shows itself on one. v is a collection (or a bare list)
@@ -233,7 +240,8 @@ func run(c *core.Ctx) {
 			sizes = []int{129, 257, 257, 600, 600, 1100, 1100, 2100}
 		}
 		n := sizes[t.Draw(len(sizes))]
-		xl = n >= 1000
+		xl = n >= 600 // (comparing two lists of 600 members is 360 000 item comparisons: left to the runs with 129 and 257)
+		busy = true
 		members := make(ap.ItemCollection, n)
 		for i := range members {
 			if i > 0 && t.Bool(1, 8) {
@@ -270,7 +278,7 @@ func run(c *core.Ctx) {
 
 	// ---- tasks and their operations (all draws happen here)
 	nTasks := 2 + t.Draw(5)
-	if t.Bool(1, 8) {
+	if t.Bool(1, 8) && !busy {
 		// a busy server: 8..12 request goroutines on the same value
 		nTasks = 8 + t.Draw(5)
 	}
@@ -477,6 +485,10 @@ func run(c *core.Ctx) {
 		total += s
 	}
 	cfg := sched.Config{Tasks: nTasks, Seed: uint64(t.Draw(1<<30)) + 1, CheckEvery: []int{1, 4, 16, 64}[t.Draw(4)], JournalFd: -1}
+	if busy {
+		// (a fingerprint of hundreds of members at every switch would dominate the run)
+		cfg.CheckEvery = 64
+	}
 	if jf, ok := core.JournalFile.(*os.File); ok && jf != nil {
 		cfg.JournalFd = int(jf.Fd())
 	}
@@ -548,6 +560,9 @@ func run(c *core.Ctx) {
 	default:
 		cfg.Policy = sched.PolicyRandomWalk
 		cfg.Denom = []int{4, 16, 64, 256}[t.Draw(4)]
+		if busy && cfg.Denom < 64 {
+			cfg.Denom = 64
+		}
 		if cold && cfg.Denom < 16 {
 			// every task runs the core operations plus the drawn ones: keep the number of switches in hand
 			cfg.Denom = 16
